@@ -41,11 +41,16 @@ def run(chk):
     sizes = [0, 1, 2, 3, 8, 50, 300] + ([2000] if thorough else [])
     for name, f in fams.items():
         for n in sizes:
-            if name.startswith("cm-") and n > 16:
-                continue
             if name == "entbomb" and n > 16:
                 continue
             cases.append((f(n), "family:%s:%d" % (name, n)))
+    # the nesting limits read from the source, approached from both sides and in an order in which a counter that is
+    # not restored on the refusing path would make the next (legal) document fail
+    for const, fam in (("MAX_GROUP_DEPTH", "cm-seq"), ("MAX_GROUP_DEPTH", "cm-choice"), ("MAX_ELEMENT_DEPTH", "nest")):
+        lim = lib.XML_CONSTS.get(const)
+        if lim and fam in fams:
+            for n in (lim + 1, lim, lim - 1, lim + 2, 5, lim, 3 * lim, lim):
+                cases.append((fams[fam](n), "family:%s:%d" % (fam, n)))
     cases = [(t, w) for t, w in cases if "\x00" not in t]
     lines = [lib.req("pipeline", t) for t, _ in cases]
     impl = lib.run_lines(h, lines, timeout=per_line * 30, per_line_resume=True)
@@ -62,7 +67,8 @@ def run(chk):
             tdis.append((t, w, a, b))
     # ---- hostile sizes: only the real code (the model driver's own recursion is not the subject)
     deep = []
-    for name, n in [("nest", 5000), ("nest", 50000 if thorough else 20000), ("siblings", 20000), ("text", 200000),
+    for name, n in [("nest", 5000), ("nest", 50000 if thorough else 20000), ("cm-seq", 20000), ("cm-choice", 50000 if thorough else 20000),
+                    ("cm-mixed", 20000), ("siblings", 20000), ("text", 200000),
                     ("attrs", 3000), ("entchain", 2000), ("unclosed", 20000), ("comment", 100000)]:
         out, dt = timed(h, fams[name](n), 60)
         deep.append((name, n, out, round(dt, 2)))
